@@ -1121,7 +1121,21 @@ func (g *Gen) typeAssert(in *ssa.TypeAssert) {
 		g.assume(implies(not(okc), app("=", vc, g.zero(at))))
 		g.tuples[in] = []string{vc, okc}
 	} else {
-		g.mayPanic("typeassert", ok, in.Pos())
+		kind := "typeassert"
+		srcName := ""
+		switch x := in.X.(type) {
+		case *ssa.Parameter:
+			srcName = x.Name()
+		case *ssa.Phi:
+			srcName = x.Comment // the source variable the phi merges (a parameter re-assigned on some path)
+		}
+		if srcName != "" && g.fc != nil && containsStr(g.fc.NoPanicKinds, "assert_"+srcName) {
+			// `nopanic(assert_<param>)`: only the unchecked dynamic-type assertions on that
+			// parameter are obligations — for functions whose other assertions rest on facts the
+			// engine cannot see (a builder's type following from an arrow type id)
+			kind = "assert_" + srcName
+		}
+		g.mayPanic(kind, ok, in.Pos())
 		g.define(in, v)
 	}
 }
